@@ -19,7 +19,7 @@ class Params(dict):
         n_nodes=8, n_inputs=2, n_inits=2, n_outputs=2, p_if=0.15, p_call=0.1, n_functions=1, depth=2, typed=True,
         name_noise=0.0, unsorted=False, p_dup=0.2, p_const=0.15, p_multi=0.1, p_unused=0.1, p_optional=0.05, metadata=False,
         big_init=False, dup_inits=False, unused_function=False, ir_version=10, init_as_input=0.2, lazy_failing_init=False,
-        p_func_subgraph=0.35, annot_noise=0.0, name_style=0, func_name_overlap=0.0, p_graphs=0.0,
+        p_func_subgraph=0.35, annot_noise=0.0, name_style=0, func_name_overlap=0.0, p_graphs=0.0, more_ops=False, alias_outputs=0.0,
     )  # fmt: skip
 
     def __init__(self, **kw):
@@ -137,8 +137,39 @@ class Builder:
                 n = ir.Node("custom", "Switch", [rng.choice(avail)], [ir.AttrGraphs("branches", bodies)], num_outputs=1, name=self.fresh("n"))
                 self.uses_custom = True
             elif x < p["p_const"] + p["p_if"] + p["p_call"] + p.get("p_graphs", 0.0) + p["p_multi"] and avail:
-                kind = rng.choice(["Dropout", "Split", "Concat", "LayerNorm3"])
-                if kind == "LayerNorm3":
+                kind = rng.choice(["Dropout", "Split", "Concat", "LayerNorm3"] + (["BatchNormTrain", "ClipNone", "RandomLike", "ConstForms"] if p.get("more_ops") else []))
+                if kind == "BatchNormTrain":
+                    # training mode: three outputs of which the running statistics are optional; the [3]-vectors come
+                    # from a Constant written with the value_floats form
+                    vec = ir.Node("", "Constant", [], [ir.AttrFloat32s("value_floats", [1.0, 2.0, float(rng.randrange(4))])], num_outputs=1, name=self.fresh("n"))
+                    vec.outputs[0].name = self.fresh("v")
+                    if p["typed"]:
+                        vec.outputs[0].type = ir.TensorType(F)
+                        vec.outputs[0].shape = ir.Shape([3])
+                    self.all_values.append(vec.outputs[0])
+                    nodes.append(vec)
+                    self.all_nodes.append(vec)
+                    c3 = vec.outputs[0]
+                    n = ir.Node("", "BatchNormalization", [rng.choice(avail), c3, c3, c3, c3], [ir.AttrInt64("training_mode", 1)], num_outputs=rng.choice([1, 3, 3]), name=self.fresh("n"))
+                elif kind == "ClipNone":
+                    # omitted optional inputs written as trailing empty inputs
+                    n = ir.Node("", "Clip", [rng.choice(avail), None, None][: rng.choice([2, 3])], num_outputs=1, name=self.fresh("n"))
+                elif kind == "RandomLike":
+                    # a non-deterministic operator: two textually equal nodes are NOT the same value
+                    src = rng.choice(avail)
+                    first = ir.Node("", "RandomUniformLike", [src], name=self.fresh("n"))
+                    first.outputs[0].name = self.fresh("v")
+                    self._type_out(first.outputs[0])
+                    nodes.append(first)
+                    self.all_nodes.append(first)
+                    local.append(first.outputs[0])
+                    n = ir.Node("", "RandomUniformLike", [src], name=self.fresh("n"))
+                elif kind == "ConstForms":
+                    form = rng.choice(["value_float", "value_int", "value_ints", "value_floats", "value_string", "value_strings"])
+                    attr = {"value_float": ir.AttrFloat32("value_float", 2.5), "value_int": ir.AttrInt64("value_int", 7), "value_ints": ir.AttrInt64s("value_ints", [1, 2]),
+                            "value_floats": ir.AttrFloat32s("value_floats", [0.5, 1.5]), "value_string": ir.AttrString("value_string", "s"), "value_strings": ir.AttrStrings("value_strings", ["a", "b"])}[form]
+                    n = ir.Node("", "Constant", [], [attr], num_outputs=1, name=self.fresh("n"))
+                elif kind == "LayerNorm3":
                     # three outputs, the two optional ones (Mean, InvStdDev) used or not independently: an unused optional
                     # output that is NOT trailing can only be blanked, never trimmed
                     ln = ir.Node("", "LayerNormalization", [rng.choice(avail), rng.choice(avail)], [ir.AttrInt64("axis", 0)], num_outputs=3, name=self.fresh("n"))
@@ -187,7 +218,7 @@ class Builder:
                     n = ir.Node("", "LeakyRelu", ins[:1], [ir.RefAttr("alpha", self.ref_attr, ir.AttributeType.FLOAT)], name=self.fresh("n"))
                 else:
                     n = ir.Node("", op, ins, name=self.fresh("n"))
-            shape_known = (n.domain == "" and n.op_type in ("Add", "Sub", "Mul", "Neg", "Relu", "Identity", "Abs", "Constant", "LeakyRelu")) or n.domain == "custom"
+            shape_known = (n.domain == "" and n.op_type in ("Add", "Sub", "Mul", "Neg", "Relu", "Identity", "Abs", "Constant", "LeakyRelu", "Clip", "RandomUniformLike")) or n.domain == "custom"
             if n.op_type == "Constant" and "value" not in n.attributes:
                 shape_known = False
             for oi, o in enumerate(n.outputs):
@@ -196,13 +227,21 @@ class Builder:
                     self._type_out(o)
                 else:
                     # shape (and for Dropout's mask the type) is left to inference
-                    if p["typed"] and not (n.op_type == "Dropout" and oi == 1):
+                    if n.op_type == "Constant":
+                        form = next(iter(n.attributes), "")
+                        if p["typed"]:
+                            o.type = ir.TensorType(ir.DataType.INT64 if "int" in form else (ir.DataType.STRING if "string" in form else F))
+                    elif n.op_type == "BatchNormalization" and oi > 0:
+                        if p["typed"]:
+                            o.type = ir.TensorType(F)
+                            o.shape = ir.Shape([3])
+                    elif p["typed"] and not (n.op_type == "Dropout" and oi == 1):
                         o.type = ir.TensorType(F)
                     self.all_values.append(o)
             nodes.append(n)
             self.all_nodes.append(n)
             for oi, o in enumerate(n.outputs):
-                usable = shape_known or (n.op_type in ("Dropout", "If") and oi == 0) or not p["typed"]
+                usable = shape_known or (n.op_type in ("Dropout", "If", "BatchNormalization") and oi == 0) or not p["typed"]
                 if usable and rng.random() > p["p_unused"]:
                     local.append(o)
         produced = [o for n in nodes for o in n.outputs]
@@ -288,6 +327,16 @@ def gen_model(rng, p: Params | None = None) -> ir.Model:
     graph, _ = b.build_body([], p["depth"], p["n_nodes"], g_inputs, p["n_outputs"], "main", inits=inits)
     _ = usable_inits
     graph.opset_imports[""] = 20
+    ao = p.get("alias_outputs", 0.0)
+    if ao and rng.random() < ao:
+        # graph outputs that are graph inputs / initializers themselves, or one value listed twice
+        how = rng.choice(["input", "initializer", "twice"])
+        if how == "input" and graph.inputs:
+            graph.outputs.append(rng.choice(list(graph.inputs)))
+        elif how == "initializer" and graph.initializers:
+            graph.outputs.append(rng.choice(list(graph.initializers.values())))
+        elif len(graph.outputs):
+            graph.outputs.append(graph.outputs[rng.randrange(len(graph.outputs))])
     if functions:
         graph.opset_imports["fdom"] = 1
     if b.uses_custom:
